@@ -11,7 +11,7 @@ from collections.abc import Callable
 import logging
 
 from xknx.exceptions import CommunicationError, CouldNotParseKNXIP, IncompleteKNXIPFrame
-from xknx.knxip import HPAI, HostProtocol, KNXIPFrame
+from xknx.knxip import HPAI, HostProtocol, KNXIPFrame, KNXIPHeader
 
 from .ip_transport import KNXIPTransport
 
@@ -103,6 +103,22 @@ class TCPTransport(KNXIPTransport):
                 couldnotparseknxip.description,
                 raw.hex(),
             )
+            # KNXIPHeader.from_knx sets total_length before raising if it is readable
+            header = KNXIPHeader()
+            try:
+                header.from_knx(raw)
+            except CouldNotParseKNXIP:
+                pass
+            if header.total_length < KNXIPHeader.HEADERLENGTH:
+                # frame length unknown - resynchronise on the next octet
+                next_frame_part = raw[1:]
+            elif len(raw) < header.total_length:
+                # wait for the rest of the malformed frame to skip it
+                self._buffer = raw
+                return
+            else:
+                # skip the malformed frame
+                next_frame_part = raw[header.total_length :]
         else:
             knx_logger.debug(
                 "Received from %s: %s",
